@@ -414,3 +414,9 @@ def run(rep: Report, prog: Program, tier: str) -> None:
     from .c03 import check_finalize
 
     check_finalize(rep, prog, rid="R11.5b")
+    rep.rule("R11.8", "the outcome the caller receives is the outcome that was built: RetryOutcome, _AttemptOutcome and ScheduledAction are transparent records (no __post_init__ / custom __init__ / shadowing property that could clear or rewrite fields), and StopReason / ErrorClass members are truthy (the `x or DEFAULT` idioms never mistake a member for `missing`)")
+    from .foundations import enums_truthy, records_transparent
+
+    records_transparent(rep, "R11.8", prog, ["redress.policy.types:RetryOutcome", "redress.policy.retry_helpers:_AttemptOutcome", "redress.policy.runner.logic:ScheduledAction"])
+    enums_truthy(rep, "R11.8", prog, ["redress.errors:StopReason", "redress.errors:ErrorClass"])
+    rep.floor("R11.8", 5)
